@@ -257,6 +257,13 @@ func findTableStep(pkgs []*packages.Package, gaveUp map[string]bool, seq *int) (
 				if st != nil {
 					return st, nil
 				}
+				st, err = paramExplodeStep(p, f, filename, fd, gaveUp, seq)
+				if err != nil {
+					return nil, err
+				}
+				if st != nil {
+					return st, nil
+				}
 				st, err = ptrAliasStep(p, f, filename, fd, gaveUp)
 				if err != nil {
 					return nil, err
@@ -598,6 +605,144 @@ func ptrAliasStep(p *packages.Package, file *ast.File, filename string, fd *ast.
 			}
 			step = &tableStep{filename, []byte(applyEdits(src, 0, edits)), site, "pointer to a local struct replaced by the struct"}
 			return false
+		}
+		return true
+	})
+	return step, stepErr
+}
+
+// paramExplodeStep: `go func(r span) { … r.start … r.end … }(x)` — a function literal that is invoked where it is
+// written, with a parameter of a grouping struct type that its body only uses field by field, and an argument that is a
+// plain local variable: the parameter becomes one parameter per field and the argument x.start, x.end. (The local x
+// is then split by sroaStep.)
+func paramExplodeStep(p *packages.Package, file *ast.File, filename string, fd *ast.FuncDecl, gaveUp map[string]bool, seq *int) (*tableStep, error) {
+	info := p.TypesInfo
+	fset := p.Fset
+	key := FuncKey(p.PkgPath, fd)
+	sc := &spliceCtx{fset: fset, callerPkg: p.Types, callerInfo: info, callerFile: file}
+	ord := 0
+	var step *tableStep
+	var stepErr error
+	ast.Inspect(fd.Body, func(n ast.Node) bool {
+		call, ok := n.(*ast.CallExpr)
+		if !ok || step != nil || stepErr != nil {
+			return true
+		}
+		lit, isLit := ast.Unparen(call.Fun).(*ast.FuncLit)
+		if !isLit || lit.Type.Params == nil || call.Ellipsis.IsValid() {
+			return true
+		}
+		// positional parameters
+		ai := 0
+		for _, f := range lit.Type.Params.List {
+			names := f.Names
+			if len(names) == 0 {
+				ai++
+				continue
+			}
+			for _, nm := range names {
+				argIdx := ai
+				ai++
+				if len(names) != 1 || argIdx >= len(call.Args) {
+					continue // only `name T` fields of their own are rewritten
+				}
+				ord++
+				site := fmt.Sprintf("%s>struct-param#%d", key, ord)
+				if gaveUp[site] {
+					continue
+				}
+				pobj, _ := info.Defs[nm].(*types.Var)
+				if pobj == nil || nm.Name == "_" {
+					continue
+				}
+				st, isStruct := pobj.Type().Underlying().(*types.Struct)
+				if !isStruct || st.NumFields() == 0 {
+					continue
+				}
+				if nt, isNamed := pobj.Type().(*types.Named); isNamed {
+					tn := nt.Obj()
+					local := tn.Pos() >= fd.Body.Pos() && tn.Pos() <= fd.Body.End()
+					newType := tn.Pkg() == p.Types && len(invKeys) > 0 && !invKeys["type:"+p.PkgPath+"."+tn.Name()]
+					if !(local && nt.NumMethods() == 0) && !newType {
+						continue
+					}
+				}
+				okFields := true
+				for i := 0; i < st.NumFields(); i++ {
+					if st.Field(i).Embedded() || st.Field(i).Name() == "_" {
+						okFields = false
+					}
+				}
+				argID, isID := ast.Unparen(call.Args[argIdx]).(*ast.Ident)
+				if !okFields || !isID {
+					continue
+				}
+				if av, isVar := info.Uses[argID].(*types.Var); !isVar || av.IsField() || av.Pkg() == nil || av.Parent() == av.Pkg().Scope() {
+					continue
+				}
+				// the body uses the parameter only as p.f
+				parent := map[ast.Node]ast.Node{}
+				var stack []ast.Node
+				ast.Inspect(lit.Body, func(m ast.Node) bool {
+					if m == nil {
+						stack = stack[:len(stack)-1]
+						return true
+					}
+					if len(stack) > 0 {
+						parent[m] = stack[len(stack)-1]
+					}
+					stack = append(stack, m)
+					return true
+				})
+				*seq++
+				prefix := fmt.Sprintf("_pe%d_", *seq)
+				var edits []textEdit
+				fieldwise := true
+				ast.Inspect(lit.Body, func(m ast.Node) bool {
+					id, isI := m.(*ast.Ident)
+					if !isI || info.Uses[id] != types.Object(pobj) {
+						return true
+					}
+					se, isSel := parent[id].(*ast.SelectorExpr)
+					if !isSel || se.X != ast.Expr(id) {
+						fieldwise = false
+						return true
+					}
+					if sel := info.Selections[se]; sel == nil || sel.Kind() != types.FieldVal || len(sel.Index()) != 1 {
+						fieldwise = false
+						return true
+					}
+					edits = append(edits, textEdit{fset.Position(se.Pos()).Offset, fset.Position(se.End()).Offset, prefix + se.Sel.Name})
+					return true
+				})
+				if !fieldwise {
+					continue
+				}
+				var params, args []string
+				okT := true
+				for i := 0; i < st.NumFields(); i++ {
+					ts, err := sc.typeString(st.Field(i).Type())
+					if err != nil {
+						okT = false
+						break
+					}
+					params = append(params, prefix+st.Field(i).Name()+" "+ts)
+					args = append(args, argID.Name+"."+st.Field(i).Name())
+				}
+				if !okT {
+					gaveUp[site] = true
+					continue
+				}
+				src, err := os.ReadFile(filename)
+				if err != nil {
+					stepErr = err
+					return false
+				}
+				edits = append(edits, textEdit{fset.Position(f.Pos()).Offset, fset.Position(f.End()).Offset, strings.Join(params, ", ")})
+				edits = append(edits, textEdit{fset.Position(call.Args[argIdx].Pos()).Offset, fset.Position(call.Args[argIdx].End()).Offset, strings.Join(args, ", ")})
+				step = &tableStep{filename, []byte(applyEdits(src, 0, edits)), site, "struct parameter of a literal passed field by field"}
+				return false
+			}
 		}
 		return true
 	})
